@@ -47,9 +47,10 @@ theorem stage_fold (c : Nat) (new : List Row) (st : Store) (hc : c < st.chans.le
 theorem delete_fold (c : Nat) (vs : List Row) (st : Store) (hc : c < st.chans.length) (h : Idx st c)
     (hin : ∀ v ∈ vs, v ∈ (st.chan c).rows ∧ v.id ≠ 0) (hd : vs.Pairwise (fun a b => a.seq ≠ b.seq)) :
     Idx (vs.foldl (deleteRow c) st) c ∧ FoldFrame st (vs.foldl (deleteRow c) st) c ∧
-    (∀ r, r ∈ ((vs.foldl (deleteRow c) st).chan c).rows ↔ r ∈ (st.chan c).rows ∧ ∀ v ∈ vs, r.seq ≠ v.seq) := by
+    (∀ r, r ∈ ((vs.foldl (deleteRow c) st).chan c).rows ↔ r ∈ (st.chan c).rows ∧ ∀ v ∈ vs, r.seq ≠ v.seq) ∧
+    (∀ P : Row → Row → Prop, (st.chan c).rows.Pairwise P → ((vs.foldl (deleteRow c) st).chan c).rows.Pairwise P) := by
   induction vs generalizing st with
-  | nil => exact ⟨h, ⟨rfl, rfl, rfl, rfl, fun _ _ => rfl⟩, by simp⟩
+  | nil => exact ⟨h, ⟨rfl, rfl, rfl, rfl, fun _ _ => rfl⟩, by simp, fun _ hp => hp⟩
   | cons a t ih =>
     simp only [List.foldl_cons]
     obtain ⟨hrows, _, _, _, hret, hck, hleo, _, hlen, hother⟩ := deleteRow_spec c st a hc
@@ -62,9 +63,11 @@ theorem delete_fold (c : Nat) (vs : List Row) (st : Store) (hc : c < st.chans.le
       intro v hv
       have := hin v (List.mem_cons_of_mem _ hv)
       exact ⟨(memf v).mpr ⟨this.1, fun e => hdp.1 v hv e.symm⟩, this.2⟩
-    obtain ⟨i2, f2, r2⟩ := ih (deleteRow c st a) (by rw [hlen]; exact hc) h1 hin1 hdp.2
-    refine ⟨i2, ⟨by rw [f2.len, hlen], by rw [f2.ret, hret], by rw [f2.ck, hck], by rw [f2.leoC, hleo], ?_⟩, ?_⟩
+    obtain ⟨i2, f2, r2, p2⟩ := ih (deleteRow c st a) (by rw [hlen]; exact hc) h1 hin1 hdp.2
+    refine ⟨i2, ⟨by rw [f2.len, hlen], by rw [f2.ret, hret], by rw [f2.ck, hck], by rw [f2.leoC, hleo], ?_⟩, ?_, ?_⟩
     · intro c' hne; rw [f2.other c' hne, hother c' hne]
+    rotate_left
+    · intro P hp; apply p2; rw [hrows]; exact hp.filter _
     · intro r
       rw [r2, memf]
       constructor
